@@ -53,6 +53,9 @@ func Main(prop string) {
 		if locate {
 			job.Shifts = []int{1, 3, 10, 100}
 		}
+		if v := os.Getenv("VERIF_PAR"); v != "" {
+			fmt.Sscanf(v, "%d", &job.Par)
+		}
 		t0 := time.Now()
 		a := Assemble(r, plan)
 		job.Batches = a.Batches
